@@ -1,5 +1,5 @@
 (* Exact rational arithmetic for lengths; Python round()/int() on them. *)
-From Coq Require Import ZArith QArith Qround List.
+From Coq Require Import ZArith QArith Qround Qabs List.
 Import ListNotations.
 Local Open Scope Z_scope.
 
@@ -21,14 +21,16 @@ Definition qtrunc (q : Q) : Z :=
   let d := Zpos (Qden q) in
   Z.quot n d.
 
-Definition is_half_tie (q : Q) : bool :=
-  let n := Qnum q in
-  let d := Zpos (Qden q) in
-  let f := Z.div n d in
-  Z.eqb (2 * (n - f * d)) d.
+(* ambiguity flags: the exact value lies within binary64 noise of a rounding boundary *)
+Definition tol : Q := 1 # 1000000000.
 
-Definition is_int_tie (q : Q) : bool :=
-  Z.eqb (Z.modulo (Qnum q) (Zpos (Qden q))) 0.
+Definition near_int (q : Q) : bool :=
+  let r := round_half_even q in
+  Qle_bool (Qabs (q - (r # 1))) tol.
+
+Definition is_int_tie (q : Q) : bool := near_int q.
+
+Definition is_half_tie (q : Q) : bool := near_int (q - (1 # 2)).
 
 Definition twip (q : Q) : Z := round_half_even (q * (1440 # 1)).
 
